@@ -108,6 +108,9 @@ func NewLockset(p *ir.Prog, mutex *types.Var, methods []*ir.Func) *Lockset {
 					if isGo {
 						v = lsUnheld
 					}
+					if _, isRet := n.AST.(*ast.ReturnStmt); isRet {
+						v = lsUnheld // a returned closure runs later, outside this critical section
+					}
 					if nv := l.entry[lf] | v; nv != l.entry[lf] {
 						l.entry[lf] = nv
 						changed = true
